@@ -615,16 +615,20 @@ func (n *Node) options() []func(*dbft.Config[Hash]) {
 			}
 			return nil
 		}),
-		dbft.WithVerifyPrepareRequest[Hash](func(dbft.ConsensusPayload[Hash]) error {
+		dbft.WithVerifyPrepareRequest[Hash](func(p dbft.ConsensusPayload[Hash]) error {
 			if sc.VerdictPM > 0 && s.tape.Chance(n.stream(SApp), sc.VerdictPM, 1000) {
+				n.facts.policy[p.Hash()] = false
 				return errProc
 			}
+			n.facts.policy[p.Hash()] = true
 			return nil
 		}),
-		dbft.WithVerifyPrepareResponse[Hash](func(dbft.ConsensusPayload[Hash]) error {
+		dbft.WithVerifyPrepareResponse[Hash](func(p dbft.ConsensusPayload[Hash]) error {
 			if sc.VerdictPM > 0 && s.tape.Chance(n.stream(SApp), sc.VerdictPM, 1000) {
+				n.facts.policy[p.Hash()] = false
 				return errProc
 			}
+			n.facts.policy[p.Hash()] = true
 			return nil
 		}),
 	}
